@@ -90,7 +90,7 @@ def h_long(timeout=200, part=None, **kw):
 
 
 # ------------------------------------------------------------------------------------------ H3 end to end: file system effects and audit events of an export
-E2E_NAMES = ["Im0", "../up", "/abs", "a/b", "..", "x\0y", "\\\\srv\\share", "C:\\x", "seed.txt", "L" * 300]
+E2E_NAMES = ["Im0", "../up", "/abs", "a/b", "..", "x\0y", "\\\\srv\\share", "C:\\x", "seed.txt", "L" * 300, "..\uff0fup", "\uff0e\uff0e\uff0fup", "a\uff3cb", "\u2024\u2024/up", "x\u2215y", "\ufe52\ufe52\uff0fseed.txt"]     # compatibility forms of / . \\ (what a Unicode normalisation would turn into separators)
 E2E_KINDS = ["gray8", "rgb8", "bit1", "gray4", "cmyk8", "dct", "flate-gray8", "ahx-cmyk", "indexed", "inline"]
 E2E_ENCODINGS = [None, "../../../secret", "/etc/passwd", "H\0x", "Identity-H/../x", "Report-H"]
 _AUDIT = {"on": False, "events": []}
@@ -102,7 +102,8 @@ def _audit_hook(event, args):
 
 
 def _pdf_name(s):
-    return b"/" + b"".join(bytes([c]) if 33 <= c <= 126 and c not in b"#/()<>[]{}%" else b"#%02x" % c for c in s.encode("latin-1"))
+    raw = s.encode("latin-1") if all(ord(ch) < 256 for ch in s) else s.encode("utf-8")          # names are byte strings; text beyond Latin-1 is written as UTF-8 (how the library reads names)
+    return b"/" + b"".join(bytes([c]) if 33 <= c <= 126 and c not in b"#/()<>[]{}%" else b"#%02x" % c for c in raw)
 
 
 def _e2e_image(kind):
@@ -279,6 +280,7 @@ def jobs(tier):
         J.append(Job("H1_cmap:alphabet:%d" % k, "h_alpha", {"func": "cmap_confined", "maxlen": ml, "part": [k, 4, 7]}, 300 if tier == "quick" else 1800, "H1_cmap"))
         J.append(Job("H2_imagename:alphabet:%d" % k, "h_alpha", {"func": "image_name_confined", "maxlen": ml, "part": [k, 4, 7]}, 300 if tier == "quick" else 1800, "H2_imagename"))
     J.append(Job("H2_imagename:long", "h_long", {}, 300, "H2_imagename"))
+    J.append(Job("H2_imagename:compat", "h_alpha", {"func": "image_name_confined", "maxlen": 4, "alpha": "/.a\uff0f\uff0e\u2024\uff3c"}, 300, "H2_imagename"))
     for k in range(4):
         J.append(Job("H3_export:%d" % k, "h3_export", {"nimg": 1 if tier == "quick" else 2, "part": [k, 4, 4]}, 300 if tier == "quick" else 1800, "H3_export"))
     J.append(Job("H1_cmap:unset", "h_alpha", {"func": "cmap_confined_unset", "maxlen": 3}, 300, "H1_cmap"))
